@@ -238,6 +238,10 @@ func runC10(r *mc.Run) {
 	// the quote's chain and of the issuer-chain headers
 	c10KeyTypes(r, w, vopts)
 
+	// (2c) well-formed, correctly signed TCB Info of every small shape of the TDX module identity list, against quotes
+	// whose module version / SVN select every position in it
+	c10ModuleIdentityShapes(r)
+
 	// (3) arbitrary endpoint behaviour
 	c10Endpoints(r, bases[0])
 	// (4) arbitrary DER in the SGX extension
@@ -618,4 +622,71 @@ func (d *detStream) Read(p []byte) (int, error) {
 		d.buf = d.buf[1:]
 	}
 	return len(p), nil
+}
+
+func c10ModuleIdentityShapes(r *mc.Run) {
+	type ident struct {
+		id     string
+		levels int
+	}
+	var kinds []ident
+	for _, id := range []string{"TDX_01", "TDX_03"} {
+		for n := 0; n <= 3; n++ {
+			kinds = append(kinds, ident{id, n})
+		}
+	}
+	var lists [][]ident
+	for _, a := range kinds {
+		lists = append(lists, []ident{a})
+		for _, b := range kinds {
+			lists = append(lists, []ident{a, b})
+		}
+	}
+	lists = append(lists, nil, []ident{})
+	type job struct {
+		list     int
+		ver, svn byte
+	}
+	var jobs []job
+	for li := range lists {
+		for _, ver := range []byte{1, 3} {
+			for svn := byte(0); svn < 8; svn++ {
+				jobs = append(jobs, job{li, ver, svn})
+			}
+		}
+	}
+	done := r.Parallel(len(jobs), func(i int) {
+		j := jobs[i]
+		id := fmt.Sprintf("module-identities/%v/version=%d,svn=%d", lists[j.list], j.ver, j.svn)
+		if !r.Want(id) {
+			return
+		}
+		w := world.Honest("T")
+		w.Spec.TeeTcbSvn = []byte{j.svn, j.ver, 5, 0, 0, 0, 0, 0, 0, 0, 0, 0, 0, 0, 0, 0}
+		w.Parts = w.Spec.Parts()
+		w.TcbInfo = world.DefaultTcbInfo(w.Plat, w.Parts.Body[0:16])
+		if lists[j.list] != nil {
+			w.TcbInfo.TdxModuleIdentities = []world.ModuleIdentity{}
+		}
+		for _, k := range lists[j.list] {
+			mi := world.ModuleIdentity{ID: k.id, Mrsigner: strings.Repeat("00", 48), Attributes: "0000000000000000", AttributesMask: "FFFFFFFFFFFFFFFF", TcbLevels: []world.Level{}}
+			for n := 0; n < k.levels; n++ {
+				mi.TcbLevels = append(mi.TcbLevels, world.Level{Tcb: world.Tcb{Isvsvn: world.IntP(6 - 2*n)}, TcbDate: "2029-01-01T00:00:00Z", TcbStatus: []string{"UpToDate", "OutOfDate", "UpToDate"}[n]})
+			}
+			w.TcbInfo.TdxModuleIdentities = append(w.TcbInfo.TdxModuleIdentities, mi)
+		}
+		w.Finish()
+		raw := w.Raw()
+		o := w.Options(world.L1)
+		c10Call(r, id, "verify.RawTdxQuote/L1", nil, func() error { return verify.RawTdxQuote(raw, o) })
+		if q, err := safeToProto(raw); err == nil {
+			o2 := w.Options(world.L1)
+			c10Call(r, id, "verify.SupportedTcbLevelsFromCollateral", nil, func() error {
+				_, _, e := verify.SupportedTcbLevelsFromCollateral(q, o2)
+				return e
+			})
+		}
+	})
+	r.SectionDone(mc.Section{Name: "module-identity-shapes", Evaluations: int64(done) * 2, Exhaustive: done == len(jobs),
+		Note: fmt.Sprintf("%d identity lists x module version {1,3} x module SVN 0..7", len(lists))})
 }
